@@ -413,6 +413,7 @@ struct GenOpts {
     bool vp_anywhere = false;      // method parameters anywhere in the lattice
     int min_arity = 1, max_arity = 4;
     bool gappy = false; // prefer definition sets that leave NONE tuples
+    bool big_pool = false; // now and then a method with up to 96 definitions
 };
 
 inline void transitive_reduce(Spec& s) {
@@ -720,6 +721,24 @@ inline void gen_methods(Choice& ch, Spec& s, const GenOpts& o, int size) {
                       std::make_pair(m.shape, m.key)) != used.end()) {
             continue;
         }
+        // now and then: the big-pool twin (VV or VVV, key 3) with many
+        // definitions
+        bool big = false;
+        if (o.big_pool && s.n >= 9 && ch.chance(1, 8)) {
+            int vv = shape_index("VV"), vvv = shape_index("VVV");
+            int sh = ch.chance(1, 3) ? vvv : vv;
+            bool allowed_sh = o.shapes.empty() ||
+                std::find(o.shapes.begin(), o.shapes.end(), sh) !=
+                    o.shapes.end();
+            if (allowed_sh && st[sh].arity >= o.min_arity &&
+                st[sh].arity <= o.max_arity &&
+                std::find(used.begin(), used.end(),
+                          std::make_pair(sh, 3)) == used.end()) {
+                m.shape = sh;
+                m.key = 3;
+                big = true;
+            }
+        }
         used.push_back({m.shape, m.key});
         int arity = st[m.shape].arity;
         // keep the tuple space enumerable: shrink parameter classes when the
@@ -727,25 +746,40 @@ inline void gen_methods(Choice& ch, Spec& s, const GenOpts& o, int size) {
         std::uint64_t total = 1;
         for (int i = 0; i < arity; ++i) {
             int c = pick_biased_class(ch, s, o.vp_anywhere);
+            if (big) {
+                // the class with most descendants: enough distinct tuples
+                for (int k = 0; k < s.n; ++k) {
+                    if (__builtin_popcountll(s.desc[k]) >
+                        __builtin_popcountll(s.desc[c])) {
+                        c = k;
+                    }
+                }
+            }
             m.vp.push_back(c);
             total *= __builtin_popcountll(s.desc[c]);
         }
         // definitions
         int maxd = std::min({o.max_defs, 16, 2 + size / 6});
         int nd = ch.draw(maxd + 1);
+        if (big) {
+            nd = 50 + ch.draw(47); // 50..96, on both sides of 64
+        }
         std::vector<int> focus(arity);
         for (int i = 0; i < arity; ++i) {
             int c = pick_from_mask(ch, s.desc[m.vp[i]]);
             focus[i] = pick_from_mask(ch, s.desc[c]); // go deep
         }
         std::vector<int> fns;
-        for (int i = 0; i < 16; ++i) {
+        for (int i = 0; i < (big ? 96 : 16); ++i) {
             fns.push_back(i);
         }
         for (int di = 0; di < nd; ++di) {
             DefSpec d;
             int mode = ch.draw(9); // 0..4 focus, 5 near-duplicate, 6..7 free,
                                    // 8 cross (unrelated bases at one position)
+            if (big && mode <= 4) {
+                mode = 6; // many distinct tuples are needed
+            }
             if (mode == 8 && arity >= 2 && !m.defs.empty()) {
                 // Take an existing definition and replace, at one position,
                 // its class by one that is unrelated to it but shares a
